@@ -33,3 +33,32 @@ package sloconfig
 //@   ensures #reclaim: result.CPUReclaimThresholdPercent != nil && deref(result.CPUReclaimThresholdPercent) == 60 && result.MemoryReclaimThresholdPercent != nil && deref(result.MemoryReclaimThresholdPercent) == 65
 //@   ensures #degrade: result.DegradeTimeMinutes != nil && deref(result.DegradeTimeMinutes) == 15
 //@   modifies nothing
+
+// Property C09 (F13): the strategy handed to the resource calculators is valid. validStrategy is IsColocationStrategyValid's
+// condition, conjunct by conjunct; the node-level overlay (annotation strategy + reclaim-ratio labels) must preserve it: the
+// cluster strategy may only be overwritten by a merged value that passed IsColocationStrategyValid, and the label overrides
+// are non-negative percentages.
+//@ spec func posOrNil(p *int64) bool = p == nil || deref(p) > 0
+//@ spec func nonnegOrNil(p *int64) bool = p == nil || deref(p) >= 0
+//@ spec func pctOrNil(p *int64) bool = p == nil || (deref(p) >= 0 && deref(p) <= 100)
+//@ spec func validStrategy(s *configuration.ColocationStrategy) bool = s != nil && posOrNil(s.MetricAggregateDurationSeconds) && posOrNil(s.MetricReportIntervalSeconds) && nonnegOrNil(s.CPUReclaimThresholdPercent) && nonnegOrNil(s.MidStaticCPUReservedPercent) && nonnegOrNil(s.MemoryReclaimThresholdPercent) && nonnegOrNil(s.MidStaticMemoryReservedPercent) && posOrNil(s.DegradeTimeMinutes) && posOrNil(s.UpdateTimeThresholdSeconds) && (s.ResourceDiffThreshold == nil || deref(s.ResourceDiffThreshold) > 0) && (s.MetricMemoryCollectPolicy == nil || len(deref(s.MetricMemoryCollectPolicy)) > 0) && pctOrNil(s.MidCPUThresholdPercent) && pctOrNil(s.MidMemoryThresholdPercent) && pctOrNil(s.MidUnallocatedPercent) && nonnegOrNil(s.BatchCPUThresholdPercent) && nonnegOrNil(s.BatchMemoryThresholdPercent)
+
+//@ func IsColocationStrategyValid [C09]
+//@   ensures #iff: result <==> validStrategy(strategy)
+//@   modifies nothing
+
+// A reclaim ratio label yields a non-negative percentage (or nothing).
+//@ func getNodeReclaimPercent [C09]
+//@   requires node != nil
+//@   ensures #nonneg: result == nil || (fresh(result) && deref(result) >= 0)
+//@   modifies nothing
+
+// The annotation decoder only fills a new strategy object.
+//@ func GetColocationStrategyOnNode [C09]
+//@   requires node != nil
+//@   ensures #fresh: result0 == nil || fresh(result0)
+//@   modifies nothing
+
+//@ func UpdateColocationStrategyForNode [C09]
+//@   requires strategy != nil && node != nil
+//@   ensures #valid: old(validStrategy(strategy)) ==> validStrategy(strategy)
